@@ -10,7 +10,6 @@ import (
 	"go/format"
 	"hash/crc32"
 	"io"
-	"math/rand"
 	"net"
 	"os"
 	osexec "os/exec"
@@ -25,29 +24,47 @@ import (
 	"github.com/tonkeeper/tongo/tl"
 	"github.com/tonkeeper/tongo/ton"
 	"verifharness/h"
+	"verifharness/tlexec"
 	"verifharness/tlmini"
 )
 
+type liteBinding struct{}
+
 func init() {
-	h.Register(&h.Prop{ID: "C10", Gen: genC10, Exec: map[string]h.ExecFn{
+	ops := tlexec.Ops(liteBinding{}, "tl.req", func(captured []byte) ([]byte, bool) {
+		if len(captured) < 36 { // ADNL payload: magic, 32 bytes random query id, query
+			return nil, false
+		}
+		return append(append([]byte{}, captured[:4]...), captured[36:]...), true
+	})
+	for k, v := range map[string]h.ExecFn{
 		"prim.crc32":          func(a []string) string { return fmt.Sprint(crc32.ChecksumIEEE(h.MustUnHex(a[0]))) },
 		"tl.schema":           exSchema,
 		"tl.crcid":            exCrcID,
-		"tl.enc":              exEnc,
-		"tl.dec":              exDec,
-		"tl.fenc":             exFenc,
-		"tl.fdec":             exFdec,
-		"tl.req":              exReq,
-		"tl.ans":              exAns,
-		"tl.reqdec":           exReqDec,
 		"tl.hw.accountid":     exHwAccountID,
 		"tl.hw.blockidext":    exHwBlockIDExt,
-		"go.tl.roundtrip":     goRoundtrip,
 		"go.tl.hw":            goHandwritten,
-		"go.tl.reqtable":      goReqTable,
 		"go.regen.liteclient": func([]string) string { return goRegen("liteclient", "generated.go", "lite_api.tl") },
 		"go.regen.integers":   func([]string) string { return goRegen("tlb", "integers.go") },
-	}})
+	} {
+		ops[k] = v
+	}
+	h.Register(&h.Prop{ID: "C10", Gen: genC10, Exec: ops})
+}
+
+func (liteBinding) Type(name string) (reflect.Type, bool) { return goType(name) }
+
+func (liteBinding) Call(method string, req reflect.Value, answer []byte) (reflect.Value, error, []byte, bool) {
+	return getStub().call(method, req, answer)
+}
+
+func (liteBinding) ServerError(err error) (reflect.Value, bool) {
+	le, ok := err.(liteclient.LiteServerErrorC)
+	return reflect.ValueOf(le), ok
+}
+
+func (liteBinding) DecodeRequest(b []byte) (uint32, *string, any, error) {
+	return liteclient.LiteapiRequestDecoder(b)
 }
 
 // ------------------------------------------------------------------------------------------- Go type registry
@@ -103,13 +120,6 @@ func goType(name string) (reflect.Type, bool) {
 	return t, ok
 }
 
-func goTypeOfTy(t *tlmini.Ty) (reflect.Type, bool) {
-	if t.Kind == tlmini.KBoxed {
-		return goType(tlmini.GoBoxedName(t.Name))
-	}
-	return goType(tlmini.GoBareName(t.Name))
-}
-
 // ------------------------------------------------------------------------------------------------- schema ops
 
 func exSchema(a []string) string {
@@ -125,90 +135,6 @@ func exCrcID(a []string) string {
 		return "bad-op"
 	}
 	return fmt.Sprintf("ok %08x", all[0].ID)
-}
-
-func exEnc(a []string) string {
-	s, t := schemaOfArg(a[0]), namedTy(a[1])
-	v, err := tlmini.ParseVal(a[2])
-	if err != nil {
-		return "bad-op"
-	}
-	rt, ok := goTypeOfTy(t)
-	if !ok {
-		return "nobinding " + a[1]
-	}
-	rv := reflect.New(rt).Elem()
-	if err := s.ToGo(t, v, rv); err != nil {
-		return "nobinding " + err.Error()
-	}
-	b, err := tl.Marshal(rv.Interface())
-	return h.Outcome(h.Hex(b), err)
-}
-
-func decodeInto(s *tlmini.Schema, rt reflect.Type, data []byte, read func(reflect.Value) (*tlmini.Val, error)) string {
-	rv := reflect.New(rt)
-	r := bytes.NewReader(data)
-	if err := tl.Unmarshal(r, rv.Interface()); err != nil {
-		return "err"
-	}
-	v, err := read(rv.Elem())
-	if err != nil {
-		return "nobinding " + err.Error()
-	}
-	rest, _ := io.ReadAll(r)
-	return "ok " + v.String() + " " + h.Hex(rest)
-}
-
-func exDec(a []string) string {
-	s, t := schemaOfArg(a[0]), namedTy(a[1])
-	rt, ok := goTypeOfTy(t)
-	if !ok {
-		return "nobinding " + a[1]
-	}
-	return decodeInto(s, rt, h.MustUnHex(a[2]), func(rv reflect.Value) (*tlmini.Val, error) { return s.FromGo(t, rv) })
-}
-
-func requestValue(s *tlmini.Schema, fn string, val string) (*tlmini.Decl, reflect.Value, string) {
-	d := s.Func(fn)
-	if d == nil {
-		return nil, reflect.Value{}, "bad-op"
-	}
-	v, err := tlmini.ParseVal(val)
-	if err != nil || v.K != tlmini.VTuple {
-		return nil, reflect.Value{}, "bad-op"
-	}
-	rt, ok := goType(tlmini.GoRequestName(fn))
-	if !ok {
-		return nil, reflect.Value{}, "nobinding " + fn
-	}
-	rv := reflect.New(rt).Elem()
-	if err := s.SetFields(d, v.Items, rv); err != nil {
-		return nil, reflect.Value{}, "nobinding " + err.Error()
-	}
-	return d, rv, ""
-}
-
-func exFenc(a []string) string {
-	s := schemaOfArg(a[0])
-	_, rv, bad := requestValue(s, a[1], a[2])
-	if bad != "" {
-		return bad
-	}
-	b, err := tl.Marshal(rv.Interface())
-	return h.Outcome(h.Hex(b), err)
-}
-
-func exFdec(a []string) string {
-	s := schemaOfArg(a[0])
-	d := s.Func(a[1])
-	rt, ok := goType(tlmini.GoRequestName(a[1]))
-	if d == nil || !ok {
-		return "nobinding " + a[1]
-	}
-	return decodeInto(s, rt, h.MustUnHex(a[2]), func(rv reflect.Value) (*tlmini.Val, error) {
-		vs, err := s.GetFields(d, rv)
-		return &tlmini.Val{K: tlmini.VTuple, Items: vs}, err
-	})
 }
 
 // -------------------------------------------------------------------------------------------- stub connection
@@ -271,8 +197,8 @@ func getStub() *stubServer {
 }
 
 // call invokes (*Client).<method> by reflection with the given request (invalid Value = no parameter).
-func (st *stubServer) call(fn string, req reflect.Value, answer []byte) (res reflect.Value, err error, captured []byte, ok bool) {
-	m := reflect.ValueOf(st.client).MethodByName(tlmini.GoMethodName(fn))
+func (st *stubServer) call(method string, req reflect.Value, answer []byte) (res reflect.Value, err error, captured []byte, ok bool) {
+	m := reflect.ValueOf(st.client).MethodByName(method)
 	if !m.IsValid() {
 		return reflect.Value{}, nil, nil, false
 	}
@@ -294,79 +220,6 @@ func (st *stubServer) call(fn string, req reflect.Value, answer []byte) (res ref
 	captured = st.captured
 	st.mu.Unlock()
 	return out[0], err, captured, true
-}
-
-func exReq(a []string) string {
-	s := schemaOfArg(a[0])
-	_, rv, bad := requestValue(s, a[1], a[2])
-	if bad != "" {
-		return bad
-	}
-	_, _, captured, ok := getStub().call(a[1], rv, []byte{0, 0, 0, 0})
-	if !ok {
-		return "nobinding method " + a[1]
-	}
-	if len(captured) < 36 {
-		return "err"
-	}
-	return "ok " + h.Hex(append(append([]byte{}, captured[:4]...), captured[36:]...))
-}
-
-func exAns(a []string) string {
-	s := schemaOfArg(a[0])
-	d := s.Func(a[1])
-	if d == nil {
-		return "bad-op"
-	}
-	res, err, _, ok := getStub().call(a[1], reflect.Value{}, h.MustUnHex(a[2]))
-	if !ok {
-		return "nobinding method " + a[1]
-	}
-	if err != nil {
-		if le, isLs := err.(liteclient.LiteServerErrorC); isLs {
-			e := s.Ctor("liteServer.error")
-			vs, err2 := s.GetFields(e, reflect.ValueOf(le))
-			if err2 != nil {
-				return "nobinding " + err2.Error()
-			}
-			return "lserr " + (&tlmini.Val{K: tlmini.VTuple, Items: vs}).String()
-		}
-		return "err"
-	}
-	cs := s.CtorsOf(d.Result)
-	var v *tlmini.Val
-	var err2 error
-	if len(cs) == 1 {
-		var vs []*tlmini.Val
-		vs, err2 = s.GetFields(cs[0], res)
-		v = &tlmini.Val{K: tlmini.VSum, Ctor: cs[0].Ctor, Items: vs}
-	} else {
-		v, err2 = s.FromGo(&tlmini.Ty{Kind: tlmini.KBoxed, Name: d.Result}, res)
-	}
-	if err2 != nil {
-		return "nobinding " + err2.Error()
-	}
-	return "ok " + v.String()
-}
-
-func exReqDec(a []string) string {
-	s := schemaOfArg(a[0])
-	tag, name, val, err := liteclient.LiteapiRequestDecoder(h.MustUnHex(a[1]))
-	if err != nil {
-		return "err"
-	}
-	if name == nil || *name == liteclient.UnknownRequest {
-		return fmt.Sprintf("ok %08x Unknown", tag)
-	}
-	d := s.Func(*name)
-	if d == nil {
-		return fmt.Sprintf("nobinding request name %q", *name)
-	}
-	vs, err := s.GetFields(d, reflect.ValueOf(val))
-	if err != nil {
-		return "nobinding " + err.Error()
-	}
-	return fmt.Sprintf("ok %08x %s %s", tag, *name, (&tlmini.Val{K: tlmini.VTuple, Items: vs}).String())
 }
 
 // ------------------------------------------------------------------------------------------ hand-written types
@@ -438,106 +291,6 @@ func goHandwritten(a []string) string {
 	}
 	return "ok"
 }
-
-// ------------------------------------------------------------------------------------------ direct oracles
-
-// goRoundtrip: on the implementation alone — MarshalTL bytes equal the harness' reference layout, and UnmarshalTL of
-// those bytes followed by junk gives the value back and leaves exactly the junk unread.
-// args: schema kind(type|func) name value junkhex
-func goRoundtrip(a []string) string {
-	s := schemaOfArg(a[0])
-	v, err := tlmini.ParseVal(a[3])
-	if err != nil {
-		return "bad-op"
-	}
-	junk := h.MustUnHex(a[4])
-	var rt reflect.Type
-	var ok bool
-	var want []byte
-	var set func(reflect.Value) error
-	var get func(reflect.Value) (*tlmini.Val, error)
-	if a[1] == "func" {
-		d := s.Func(a[2])
-		rt, ok = goType(tlmini.GoRequestName(a[2]))
-		if d == nil || !ok {
-			return failf("nobinding", "%s", a[2])
-		}
-		want, err = s.EncodeFields(d.Fields, v.Items)
-		set = func(rv reflect.Value) error { return s.SetFields(d, v.Items, rv) }
-		get = func(rv reflect.Value) (*tlmini.Val, error) {
-			vs, err := s.GetFields(d, rv)
-			return &tlmini.Val{K: tlmini.VTuple, Items: vs}, err
-		}
-	} else {
-		t := namedTy(a[2])
-		rt, ok = goTypeOfTy(t)
-		if !ok {
-			return failf("nobinding", "%s", a[2])
-		}
-		want, err = s.Encode(t, v)
-		set = func(rv reflect.Value) error { return s.ToGo(t, v, rv) }
-		get = func(rv reflect.Value) (*tlmini.Val, error) { return s.FromGo(t, rv) }
-	}
-	if err != nil {
-		return "bad-op"
-	}
-	rv := reflect.New(rt).Elem()
-	if err := set(rv); err != nil {
-		return failf("nobinding", "%v", err)
-	}
-	got, err := tl.Marshal(rv.Interface())
-	if err != nil {
-		return failf("marshal-error", "%v", err)
-	}
-	if !bytes.Equal(got, want) {
-		i := 0
-		for i < len(got) && i < len(want) && got[i] == want[i] {
-			i++
-		}
-		return failf("layout", "first difference at byte %d: got %d bytes, layout of the schema has %d", i, len(got), len(want))
-	}
-	back := reflect.New(rt)
-	r := bytes.NewReader(append(append([]byte{}, got...), junk...))
-	if err := tl.Unmarshal(r, back.Interface()); err != nil {
-		return failf("unmarshal-error", "%v", err)
-	}
-	v2, err := get(back.Elem())
-	if err != nil {
-		return failf("roundtrip", "%v", err)
-	}
-	if v2.String() != v.String() {
-		return failf("roundtrip", "decoded value differs")
-	}
-	if r.Len() != len(junk) {
-		return failf("self-delimiting", "%d bytes left unread, want %d", r.Len(), len(junk))
-	}
-	return "ok"
-}
-
-// goReqTable: every function id of the schema selects the decoder of that function, under the function's name.
-func goReqTable(a []string) string {
-	s := schemaOfArg(a[0])
-	g := &tlmini.Gen{R: rand.New(rand.NewSource(int64(len(a[0])))), S: s, MaxVec: 3, Len: func() int { return 5 },
-		Mode: func(used uint32) uint32 { return used }, Budget: 1 << 20}
-	for _, d := range s.Funcs {
-		req, err := s.EncodeFields(d.Fields, g.Fields(d, 0))
-		if err != nil {
-			return failf("reqtable", "%s: %v", d.Ctor, err)
-		}
-		b := append(le32b(d.ID), req...)
-		tag, name, _, err := liteclient.LiteapiRequestDecoder(b)
-		if err != nil || tag != d.ID || name == nil || *name != d.Ctor {
-			n := "<nil>"
-			if name != nil {
-				n = *name
-			}
-			return failf("reqtable", "id %08x of %s decoded as %s", d.ID, d.Ctor, n)
-		}
-	}
-	return "ok"
-}
-
-func le32b(n uint32) []byte { b := make([]byte, 4); binary.LittleEndian.PutUint32(b, n); return b }
 
 // goRegen (translator X6): run the repository's own generator into a scratch directory and compare its output, after
 // gofmt (the checked-in files are gofmt-ed, the generators write an unformatted header), byte for byte with the
@@ -619,152 +372,10 @@ func genC10(g *h.G) {
 	for _, d := range all {
 		g.Emit("tl.crcid", d.Ctor, textHex(d.Render()))
 	}
-	fullHex := textHex(s.Render())
-	g.Emit("go.tl.reqtable", fullHex)
 
-	gen := &tlmini.Gen{R: g.Rng, S: s, MaxVec: 50, Len: lengthPlan(g), Mode: modePlan(g)}
-	junk := func() string {
-		if g.Rng.Intn(3) == 0 {
-			return "-"
-		}
-		return h.Hex(g.Bytes(1 + g.Rng.Intn(9)))
-	}
-	count := func(v *tlmini.Val) {
-		var walk func(v *tlmini.Val)
-		walk = func(v *tlmini.Val) {
-			switch v.K {
-			case tlmini.VRaw:
-				n := len(v.B)
-				switch {
-				case n == 0:
-					g.Count("bytes_len_0")
-				case n < 254:
-					g.Count(fmt.Sprintf("bytes_len_mod4_%d", n%4))
-				default:
-					g.Count("bytes_len_ge254")
-				}
-			case tlmini.VVec:
-				switch n := len(v.Items); {
-				case n == 0:
-					g.Count("vec_0")
-				case n < 8:
-					g.Count("vec_1..7")
-				default:
-					g.Count("vec_8..50")
-				}
-			case tlmini.VAbsent:
-				g.Count("field_absent")
-			case tlmini.VSum:
-				g.Count("sum_" + v.Ctor)
-			}
-			for _, it := range v.Items {
-				walk(it)
-			}
-		}
-		walk(v)
-	}
-
-	// every type: single-constructor types through their (bare) constructor, the others boxed
-	n := g.Scale(60, 3000)
-	var tys []*tlmini.Ty
-	for _, tn := range s.TypeNames() {
-		cs := s.CtorsOf(tn)
-		if len(cs) == 1 {
-			tys = append(tys, &tlmini.Ty{Kind: tlmini.KBare, Name: cs[0].Ctor})
-		} else {
-			tys = append(tys, &tlmini.Ty{Kind: tlmini.KBoxed, Name: tn})
-		}
-	}
-	tys = append(tys, &tlmini.Ty{Kind: tlmini.KBoxed, Name: "liteServer.SignatureSet"}) // hand-written boxed codec
-	for _, t := range tys {
-		sub := textHex(s.Sub([]*tlmini.Ty{t}, nil))
-		for i := 0; i < n; i++ {
-			gen.Budget = 60
-			v := gen.Val(t, 0)
-			count(v)
-			vs := v.String()
-			g.NonTrivial(t.Name + "/" + vs)
-			g.Emit("tl.enc", sub, t.Name, vs)
-			ref, err := s.Encode(t, v)
-			if err != nil {
-				h.Fatalf("reference encoder: %v", err)
-			}
-			j := junk()
-			g.Emit("tl.dec", sub, t.Name, h.Hex(append(ref, h.MustUnHex(j)...)))
-			g.Emit("go.tl.roundtrip", sub, "type", t.Name, vs, j)
-			if t.Kind == tlmini.KBoxed && g.Rng.Intn(4) == 0 { // dispatch on an id that is not one of the type's
-				bad := append([]byte{}, ref...)
-				bad[g.Rng.Intn(4)] ^= byte(1 << uint(g.Rng.Intn(8)))
-				g.Emit("tl.dec", sub, t.Name, h.Hex(bad))
-			}
-		}
-	}
-
-	// every function: parameter struct, request as sent by the client method, answers
-	errDecl := s.Ctor("liteServer.error")
-	for _, d := range s.Funcs {
-		sub := textHex(s.Sub(nil, []string{d.Ctor}, "liteServer.error"))
-		resTy := &tlmini.Ty{Kind: tlmini.KBoxed, Name: d.Result}
-		for i := 0; i < n; i++ {
-			gen.Budget = 60
-			ps := &tlmini.Val{K: tlmini.VTuple, Items: gen.Fields(d, 0)}
-			count(ps)
-			g.NonTrivial(d.Ctor + "/" + ps.String())
-			g.Emit("tl.fenc", sub, d.Ctor, ps.String())
-			ref, err := s.EncodeFields(d.Fields, ps.Items)
-			if err != nil {
-				h.Fatalf("reference encoder: %v", err)
-			}
-			j := junk()
-			g.Emit("tl.fdec", sub, d.Ctor, h.Hex(append(ref, h.MustUnHex(j)...)))
-			g.Emit("go.tl.roundtrip", sub, "func", d.Ctor, ps.String(), j)
-			if i%3 == 0 || len(d.Fields) > 0 && i < 20 {
-				g.Emit("tl.req", sub, d.Ctor, ps.String())
-			}
-			g.Emit("tl.reqdec", fullHex, h.Hex(append(append(le32b(d.ID), ref...), h.MustUnHex(j)...)))
-			// answers
-			gen.Budget = 60
-			res := gen.Val(resTy, 0)
-			count(res)
-			rb, err := s.Encode(resTy, res)
-			if err != nil {
-				h.Fatalf("reference encoder: %v", err)
-			}
-			switch g.Rng.Intn(8) {
-			case 0: // liteServer.error
-				ev := gen.Fields(errDecl, 0)
-				eb, _ := s.EncodeFields(errDecl.Fields, ev)
-				g.Count("answer_error")
-				g.Emit("tl.ans", sub, d.Ctor, h.Hex(append(le32b(errDecl.ID), eb...)))
-			case 1: // wrong tag: the id of some other declaration, or a flipped bit
-				bad := append([]byte{}, rb...)
-				if g.Rng.Intn(2) == 0 {
-					copy(bad, le32b(all[g.Rng.Intn(len(all))].ID))
-				} else {
-					bad[g.Rng.Intn(4)] ^= byte(1 << uint(g.Rng.Intn(8)))
-				}
-				g.Count("answer_wrong_tag")
-				g.Emit("tl.ans", sub, d.Ctor, h.Hex(bad))
-			case 2: // too short for a tag, or cut inside the value
-				g.Count("answer_truncated")
-				g.Emit("tl.ans", sub, d.Ctor, h.Hex(rb[:g.Rng.Intn(len(rb))]))
-			case 3: // trailing bytes after the value are ignored by the generated code
-				g.Count("answer_trailing")
-				g.Emit("tl.ans", sub, d.Ctor, h.Hex(append(rb, g.Bytes(1+g.Rng.Intn(8))...)))
-			default:
-				g.Count("answer_result")
-				g.Emit("tl.ans", sub, d.Ctor, h.Hex(rb))
-			}
-		}
-	}
-	// request decoder: ids that are no function, short inputs
-	for i := 0; i < g.Scale(40, 400); i++ {
-		b := g.Bytes(g.Rng.Intn(12))
-		if g.Rng.Intn(3) == 0 && len(b) >= 4 {
-			copy(b, le32b(s.Types[g.Rng.Intn(len(s.Types))].ID))
-		}
-		g.Emit("tl.reqdec", fullHex, h.Hex(b))
-	}
+	// every type (single-constructor types through their bare constructor, the others boxed) and every function
+	tys := append(tlexec.TopTypes(s), &tlmini.Ty{Kind: tlmini.KBoxed, Name: "liteServer.SignatureSet"}) // hand-written boxed codec
+	tlexec.EmitCases(g, s, tys, g.Scale(60, 3000), "tl.req", "", "")
 
 	// byte strings of every length 0..1100 (bytes and string carriers), and around 2^16 / 2^24 in the thorough tier
 	lib := &tlmini.Ty{Kind: tlmini.KBare, Name: "liteServer.libraryEntry"}
